@@ -108,3 +108,120 @@ func comparatorBounded(p *Prog, impl *ssa.Function) *cmpBounded {
 	}
 	return res
 }
+
+// compareWhole: bounded check of version.Compare itself (used when no separate run comparator can be
+// located in it): pairs of versions whose upstream parts run through the family of comparatorBounded, and
+// every combination of two epochs, two upstream parts and three revisions for the composition.
+func compareWhole(p *Prog) *cmpBounded {
+	res := &cmpBounded{}
+	fn := p.Func("version", "Compare")
+	vt := p.Named("version", "Version")
+	if fn == nil || vt == nil {
+		res.undecided = "version.Compare not found"
+		return res
+	}
+	m := NewMachine(p, nil)
+	m.StepLimit = 100000
+	base := initState(m, "version")
+	if base.Status == stStuck {
+		res.undecided = base.Msg
+		return res
+	}
+	type ver struct {
+		epoch    int64
+		up, rev string
+	}
+	ref := func(x, y ver) int {
+		if x.epoch != y.epoch {
+			if x.epoch < y.epoch {
+				return -1
+			}
+			return 1
+		}
+		if c := dpkgorder.Verrevcmp(x.up, y.up); c != 0 {
+			return c
+		}
+		return dpkgorder.Verrevcmp(x.rev, y.rev)
+	}
+	run := func(a, b ver) bool {
+		res.pairs++
+		st := base.Clone()
+		st.Status = stRun
+		mk := func(v ver) Val {
+			return mkStruct(vt, map[string]Val{"Epoch": v.epoch, "Version": v.up, "Revision": v.rev})
+		}
+		st.push(fn, []Val{mk(a), mk(b)}, nil)
+		out := m.Run(st)
+		if len(out) != 1 {
+			res.undecided = fmt.Sprintf("Compare(%v, %v): %d paths", a, b, len(out))
+			return false
+		}
+		switch out[0].Status {
+		case stPanic:
+			res.problems = append(res.problems, fmt.Sprintf("Compare panics on %v vs %v: %s", a, b, out[0].Msg))
+			return len(res.problems) < 10
+		case stRet:
+			got, ok := out[0].Ret.(int64)
+			if !ok {
+				res.undecided = "non-integer result of Compare"
+				return false
+			}
+			if want := ref(a, b); sign(got) != sign(int64(want)) {
+				res.problems = append(res.problems, fmt.Sprintf("Compare(%v, %v) has sign %d but dpkg's order gives %d", a, b, sign(got), sign(int64(want))))
+				return len(res.problems) < 10
+			}
+			return true
+		}
+		if out[0].Notes["nonterm"] {
+			res.problems = append(res.problems, fmt.Sprintf("Compare does not terminate on %v vs %v", a, b))
+			return len(res.problems) < 10
+		}
+		res.undecided = fmt.Sprintf("Compare(%v, %v): %s", a, b, out[0].Msg)
+		return false
+	}
+	sigma := []byte("01a~+")
+	var short []string
+	var gen func(prefix string, n int)
+	gen = func(prefix string, n int) {
+		short = append(short, prefix)
+		if n == 0 {
+			return
+		}
+		for _, c := range sigma {
+			gen(prefix+string(c), n-1)
+		}
+	}
+	gen("", 3)
+	long := []string{"", "0", "00", "1", "01", "10", "9", "09", "100", "1.1", "1.10", "1.9", "1.09", "1.0", "1.00", "a9", "a10", "1~rc1", "1~~", "1~", "1+b1", "1a", "1.", "1-1", "1:1", "2.30", "2.4",
+		"12345678901234567890", "12345678901234567891", "10000000000000000000", "20000000000000000000", "28446744073709551616", "18446744073709551616", "9223372036854775808", "z", "Z", "a.", "a+", "a-", "a~"}
+	for _, a := range long {
+		for _, b := range long {
+			if !run(ver{0, a, ""}, ver{0, b, ""}) || !run(ver{0, "1", a}, ver{0, "1", b}) {
+				return res
+			}
+		}
+	}
+	for _, a := range short {
+		for _, b := range short {
+			if !run(ver{0, a, ""}, ver{0, b, ""}) {
+				return res
+			}
+		}
+	}
+	var vs []ver
+	for _, e := range []int64{0, 1} {
+		for _, u := range []string{"1.0", "1.00", "2"} {
+			for _, r := range []string{"", "1", "2"} {
+				vs = append(vs, ver{e, u, r})
+			}
+		}
+	}
+	for _, a := range vs {
+		for _, b := range vs {
+			if !run(a, b) {
+				return res
+			}
+		}
+	}
+	return res
+}
